@@ -24,7 +24,13 @@
    worker_errordown's scheduler calls (remove_node, mark_test_pending) come before it revokes the
    shutdown, the clone registers nothing and gets an unused id, and the tail of loop_once
    re-triggers the shutdown; a worker that reports in is shut down instead of being added; a late
-   collection is ignored. *)
+   collection is ignored.
+
+   The step that TAKES the stop decision is covered too (section 4):
+     loop_once_stop_decision_no_dispatch / sys_stop_decision_step_no_dispatch :
+       a controller iteration / system step at the end of which the stop reason is set sends no
+       work (for exit status 2, worker_workerfinished triggers the shutdown before it calls
+       worker_errordown). *)
 From XV Require Import Base Worker Ctl SchedLoad SchedSteal SchedScope SchedEach Sched DSession System
   NoHook DSessionProofs ShutdownOnce StopProofs FifoProofs SystemCorollaries SystemGaps2a.
 Open Scope nat_scope.
@@ -448,9 +454,9 @@ Proof.
 Qed.
 
 Lemma handle_inv ev d d' o :
-  d_handle ev d = (d', o, Ok tt) -> d_shuttingdown d = false -> sd_inv d'.
+  d_handle ev d = (d', o, Ok tt) -> fresh d -> d_shuttingdown d = false -> sd_inv d'.
 Proof.
-  intros H Hsd. destruct (death_event ev) eqn:Ed.
+  intros H F Hsd. destruct (death_event ev) eqn:Ed.
   2:{ pose proof (ss_handle ev d Ed _ _ _ H) as K. unfold SS in K. intros X. congruence. }
   destruct ev as [| | | | | | | | | |n sk|n]; try discriminate; cbn [d_handle] in H.
   - destruct sk; try discriminate. unfold d_worker_workerfinished in H.
@@ -458,7 +464,15 @@ Proof.
     unfold hook, emit in H0. inversion H0; subst d0 o0. clear H0.
     apply bind_ok_inv in H. destruct H as (d1 & o1 & [] & oR2 & H1 & H & ->).
     unfold mbind, get, put in H1. inversion H1; subst d1 o1. clear H1.
-    eapply errordown_inv; [exact H|exact Hsd].
+    (* keyboard interrupt: the shutdown is triggered first, worker_errordown then starts from a
+       state in which every registered node is shutting down *)
+    apply bind_ok_inv in H. destruct H as (d3 & o3 & [] & oR3 & H3 & H4 & ->).
+    assert (F1 : fresh (d_set_shouldstop d true)) by exact F.
+    assert (F3 : fresh d3) by exact (proj1 (rk_rd _ _ (rk_triggershutdown _) _ _ _ H3 F1)).
+    assert (I3 : sd_inv d3).
+    { apply (triggershutdown_inv _ _ _ H3). intros X. cbn [d_shuttingdown d_set_shouldstop] in X. congruence. }
+    pose proof (proj1 (triggershutdown_spec _ _ _ _ H3)) as Sd3.
+    destruct (ad_errordown n d3 _ _ _ H4 F3 (I3 Sd3)) as (_ & A' & _). intros _. exact A'.
   - eapply errordown_inv; eassumption.
 Qed.
 
@@ -677,24 +691,227 @@ Example g2_law_w_witness :
   (o, s_nodes g2_st, s_nodes st', sdn (s_nt g2_st) 0) = ([OSend 0 (CRun [4])], [0; 1], [0], false).
 Proof. vm_compute. reflexivity. Qed.
 
-(* OBSERVATION (not covered by, and not contradicting, the theorem above, which speaks about the
-   steps AFTER a state in which the stop reason is set): inside the ONE iteration that takes the
-   stop decision for a worker that finished with exit status 2 (keyboard interrupt),
-   worker_workerfinished sets shouldstop and THEN calls worker_errordown, whose
-   sched.remove_node() re-queues the dead worker's tests and hands work to another worker, and
-   whose _clone_node starts a replacement; only the end of that iteration triggers the shutdown.
-   Controller-level witness (the system model never produces exit status 2): loadfile, the
-   controller state after 6 rounds, event workerfinished(node 1, exitstatus 2). *)
+(* ====================================================================================== *)
+(* 4. the iteration that TAKES the stop decision                                           *)
+(* ====================================================================================== *)
+(* The theorem above speaks about the steps AFTER a state in which the stop reason is set.  The
+   iteration that SETS it sends no work either: maxfail (a report) and a worker that finished
+   with shouldstop call no scheduler method at all; for a worker that finished with exit status 2
+   (keyboard interrupt) worker_workerfinished sets shouldstop, TRIGGERS THE SHUTDOWN, and only
+   then calls worker_errordown, whose sched.remove_node() / mark_test_pending() therefore find
+   every registered node shutting down and re-schedule nothing. *)
+Lemma nowork_shutdown n : nowork [OSend n CShutdown].
+Proof. intros m. rewrite work_count_one. cbn. destruct (Nat.eqb n m); reflexivity. Qed.
+
+Lemma nwr_node_shutdown n d0 : from nowork_rel d0 (d_node_shutdown n).
+Proof.
+  intros d' o r H. destruct (node_shutdown_out _ _ _ _ _ _ _ H) as (_ & [->| ->]);
+    [apply nowork_nil|apply nowork_shutdown].
+Qed.
+#[local] Hint Resolve nowork_rel_refl nowork_rel_trans : sdrel.
+Create HintDb nwrdb.
+#[local] Hint Resolve nwr_node_shutdown : nwrdb.
+Ltac nwr_leaf := unfold nowork_rel; first [apply nowork_nil|apply nowork_hook].
+Ltac nwr1 :=
+  first
+    [ apply f_ret; rr | apply f_raise; rr | apply f_massert; rr | apply f_of_opt; rr
+    | apply f_getv; rr
+    | apply f_put; nwr_leaf
+    | apply f_emit; nwr_leaf
+    | apply f_mfor; [rr | rr | intros ? ?]
+    | match goal with
+      | |- from _ _ (mbind get _) => apply f_get
+      | |- from _ _ (mbind (ret _) _) => apply f_ret_bind
+      | |- from _ _ (mbind (of_opt _ _) _) => apply f_of_opt_bind; [rr | intros ? ?]
+      | |- from _ _ (mbind (massert _) _) => apply f_massert_bind; [rr | intros ?]
+      | |- from _ _ (mbind _ _) => apply f_bind; [rr | | intros ? ?]
+      end
+    | progress cbv zeta
+    | match goal with
+      | |- from _ _ (match ?x with _ => _ end) => destruct x eqn:?
+      | |- from _ _ (let '(_, _) := ?x in _) => destruct x eqn:?
+      end
+    | solve [eauto with nwrdb] ].
+Ltac nwr := repeat nwr1.
+
+Lemma nwr_triggershutdown d0 : from nowork_rel d0 d_triggershutdown.
+Proof. unfold d_triggershutdown. nwr. Qed.
+#[local] Hint Resolve nwr_triggershutdown : nwrdb.
+Lemma nwr_active_remove n d0 : from nowork_rel d0 (d_active_remove n).
+Proof. unfold d_active_remove. nwr. Qed.
+#[local] Hint Resolve nwr_active_remove : nwrdb.
+Lemma nwr_handlefailures f d0 : from nowork_rel d0 (d_handlefailures f).
+Proof. unfold d_handlefailures. nwr. Qed.
+#[local] Hint Resolve nwr_handlefailures : nwrdb.
+Lemma nwr_no_active d0 : from nowork_rel d0 d_no_active.
+Proof. unfold d_no_active. nwr. Qed.
+Lemma nwr_process_from_remote n m d0 : from nowork_rel d0 (process_from_remote n m).
+Proof.
+  unfold process_from_remote. apply f_get. apply f_of_opt_bind; [rr|]. intros f Hf. cbv zeta.
+  destruct m as [e|ids|sk|i ms|[|]| | |]; try destruct e; nwr.
+Qed.
+Lemma nwr_loop_tail (u : unit) d0 :
+  from nowork_rel d0 ((d <- get ;; if s_tests_finished (d_sched d) then d_triggershutdown else ret tt) ;;;
+                      (d <- get ;; if d_shouldstop d then d_triggershutdown else ret tt)).
+Proof. nwr. Qed.
+Lemma keep_loop_tail (u : unit) d0 :
+  from (lift2 sd_keep) d0 ((d <- get ;; if s_tests_finished (d_sched d) then d_triggershutdown else ret tt) ;;;
+                           (d <- get ;; if d_shouldstop d then d_triggershutdown else ret tt)).
+Proof. st. Qed.
+
+(* the handlers that can set the stop reason (StopProofs.nonstop ev = false), other than the
+   keyboard interrupt, call no scheduler method *)
+Lemma nwr_handle_stopper ev d0 :
+  nonstop ev = false -> (forall n, ev <> QFinished n SKKbd) -> from nowork_rel d0 (d_handle ev).
+Proof.
+  destruct ev as [n|n ids|n key fl|n i|n i|n i k oc|n i ms|n ixs| |n|n sk|n]; cbn [nonstop d_handle];
+    intros Hn Hk; try discriminate; unfold hook.
+  - nwr.
+  - nwr.
+  - unfold d_worker_workerfinished, hook. destruct sk; try discriminate; [nwr|].
+    exfalso. exact (Hk n eq_refl).
+Qed.
+
+(* the keyboard interrupt: from a state satisfying the invariants (fresh ids; shutting down =>
+   every registered node is shutting down) *)
+Lemma kbd_no_dispatch n d d' o r :
+  fresh d -> sd_inv d -> d_handle (QFinished n SKKbd) d = (d', o, r) -> nowork o.
+Proof.
+  intros F HI H. cbn [d_handle] in H. unfold d_worker_workerfinished in H.
+  apply DSessionProofs.mbind_inv in H. destruct H as [(d0 & o0 & [] & oR & H0 & H & ->)|(e & H0 & _)]; [|inversion H0].
+  unfold hook, emit in H0. inversion H0; subst d0 o0. clear H0.
+  apply nowork_app; [apply nowork_hook|].
+  apply DSessionProofs.mbind_inv in H. destruct H as [(d1 & o1 & [] & oR2 & H1 & H & ->)|(e & H1 & _)].
+  2:{ unfold mbind, get, put in H1. inversion H1. }
+  unfold mbind, get, put in H1. inversion H1; subst d1 o1. clear H1. cbn [app].
+  apply DSessionProofs.mbind_inv in H. destruct H as [(d3 & o3 & [] & oR3 & H3 & H4 & ->)|(e & H3 & ->)].
+  2:{ exact (nwr_triggershutdown _ _ _ _ H3). }
+  apply nowork_app; [exact (nwr_triggershutdown _ _ _ _ H3)|].
+  assert (F1 : fresh (d_set_shouldstop d true)) by exact F.
+  assert (F3 : fresh d3) by exact (proj1 (rk_rd _ _ (rk_triggershutdown _) _ _ _ H3 F1)).
+  assert (I3 : sd_inv d3).
+  { apply (triggershutdown_inv _ _ _ H3). intros X. apply HI. exact X. }
+  pose proof (proj1 (triggershutdown_spec _ _ _ _ H3)) as Sd3.
+  destruct (ad_errordown n d3 _ _ _ H4 F3 (I3 Sd3)) as (_ & _ & N). exact N.
+Qed.
+
+(* T3: one iteration of the controller loop at the end of which the stop reason is set sends no
+   work -- whether the stop reason was set before (then the session is shutting down: T2) or is
+   set by this very iteration *)
+Theorem loop_once_stop_decision_no_dispatch ev d d' o r :
+  fresh d -> sd_inv d -> (d_shouldstop d = true -> d_shuttingdown d = true) ->
+  d_loop_once ev d = (d', o, r) -> d_shouldstop d' = true -> nowork o.
+Proof.
+  intros F HI Hss H Hs'. destruct (d_shouldstop d) eqn:Hs.
+  { pose proof (Hss eq_refl) as Sd. exact (proj2 (proj2 (loop_once_no_dispatch _ _ _ _ _ Sd F (HI Sd) H))). }
+  unfold d_loop_once in H.
+  assert (HN : forall d1 o1 r1, d_handle ev d = (d1, o1, r1) -> d_shouldstop d1 = true -> nowork o1).
+  { intros d1 o1 r1 H1 S1. destruct (nonstop ev) eqn:En.
+    { pose proof (eq_handle ev d En _ _ _ H1) as K. unfold lift2, stop_eq in K. congruence. }
+    assert (DK : (exists n, ev = QFinished n SKKbd) \/ (forall n, ev <> QFinished n SKKbd)).
+    { destruct ev as [| | | | | | | | | |n sk|]; try (right; intros; discriminate).
+      destruct sk; try (right; intros; discriminate). left. exists n. reflexivity. }
+    destruct DK as [(n & ->)|DK].
+    - eapply kbd_no_dispatch; eassumption.
+    - exact (nwr_handle_stopper ev d En DK _ _ _ H1). }
+  apply DSessionProofs.mbind_inv in H. destruct H as [(d1 & o1 & [] & o2 & H1 & H2 & ->)|(e & H1 & ->)].
+  - pose proof (keep_loop_tail tt d1 _ _ _ H2) as (K & _).
+    apply nowork_app; [apply (HN _ _ _ H1); congruence|exact (nwr_loop_tail tt d1 _ _ _ H2)].
+  - exact (HN _ _ _ H1 Hs').
+Qed.
+Print Assumptions loop_once_stop_decision_no_dispatch.
+
+(* the same for one step of the system, from every reachable state in which no exception has
+   escaped: a step after which the stop reason is set sends no work to anybody.  Together with
+   sys_no_dispatch_after_stop: no CRun / CRunAll / CSteal from the step that takes the stop
+   decision (included) onwards. *)
+Theorem sys_stop_decision_step_no_dispatch c ls s o0 w0 l s' o w :
+  sys_exec c (sys_init c) ls = (s, o0, w0) -> not_errored s ->
+  sys_step c s l = Some (s', o, w) -> d_shouldstop (y_d s') = true ->
+  forall n, nwork (cmds_to n o) = 0.
+Proof.
+  intros H Hn Hst Hs' n. rewrite <- work_count_cmds. revert n. change (nowork o).
+  destruct (sys_exec_lift_pre reach_inv (fun _ _ _ => True) (fun _ => I) (fun _ _ _ _ _ _ _ => I)
+              cmove_reach_inv _ _ _ _ _ _ H (reach_inv_init c)) as (_ & P).
+  destruct (P Hn) as (F & HI).
+  pose proof (sys_stop_shutting_down _ _ _ _ _ H Hn) as Hss.
+  unfold sys_step in Hst. destruct (y_result s) eqn:Eres; [discriminate|].
+  destruct l as [k|k|k|k| |k].
+  - destruct (mem_nat k (y_dead s)); [discriminate|].
+    destruct (aget k (y_down s)) as [[|cmd rest]|]; try discriminate.
+    destruct (aget k (y_w s)); [|discriminate]. inversion Hst; subst. apply nowork_nil.
+  - destruct (mem_nat k (y_dead s)); [discriminate|].
+    destruct (aget k (y_w s)) as [w0'|]; [|discriminate].
+    destruct (negb (wcb w0')); [discriminate|].
+    destruct (recv_step (c_oracle c k) w0') as [w1 evs]. inversion Hst; subst. apply nowork_nil.
+  - destruct (mem_nat k (y_dead s)); [discriminate|].
+    destruct (aget k (y_w s)) as [w0'|]; [|discriminate].
+    destruct (dies_now c k w0'); [inversion Hst; subst; apply nowork_nil|].
+    destruct (main_step (c_oracle c k) w0') as [[w1 evs]|]; [|discriminate].
+    inversion Hst; subst. apply nowork_nil.
+  - destruct (aget k (y_up s)) as [[|m rest]|]; try discriminate. cbn [y_d] in Hst.
+    destruct (process_from_remote k m (y_d s)) as [[d1 outs] r] eqn:E.
+    pose proof (nwr_process_from_remote k m _ _ _ _ E) as N.
+    destruct r; inversion Hst; subst; exact N.
+  - destruct (d_active (y_d s)) as [|a act].
+    + destruct (d_no_active (y_d s)) as [[d1 outs] r] eqn:E. inversion Hst; subst.
+      exact (nwr_no_active _ _ _ _ E).
+    + destruct (y_evq s) as [|ev q]; [discriminate|].
+      destruct (d_loop_once ev (y_d s)) as [[d1 outs] r] eqn:E.
+      assert (T3 : d_shouldstop d1 = true -> nowork outs).
+      { intros S1. eapply loop_once_stop_decision_no_dispatch; eassumption. }
+      destruct r as [u|e].
+      * destruct (d_session_finished d1).
+        { inversion Hst; subst. apply T3. cbn [set_result y_d] in Hs'. rewrite y_d_apply_outs in Hs'. exact Hs'. }
+        destruct (d_active d1) as [|a' act'].
+        { destruct (d_no_active d1) as [[d2 outs2] r2] eqn:E2. inversion Hst; subst.
+          cbn [set_result y_d] in Hs'. rewrite y_d_apply_outs in Hs'. cbn [set_d y_d] in Hs'.
+          pose proof (keep_no_active d1 _ _ _ E2) as (K & _).
+          apply nowork_app; [apply T3; congruence|exact (nwr_no_active _ _ _ _ E2)]. }
+        inversion Hst; subst. apply T3. rewrite y_d_apply_outs in Hs'. exact Hs'.
+      * inversion Hst; subst. apply T3. cbn [set_result y_d] in Hs'. rewrite y_d_apply_outs in Hs'. exact Hs'.
+  - destruct (mem_nat k (y_dead s)); [discriminate|].
+    destruct (aget k (y_w s)) as [w0'|]; [|discriminate].
+    destruct (wph w0'); try discriminate; inversion Hst; subst; apply nowork_nil.
+Qed.
+Print Assumptions sys_stop_decision_step_no_dispatch.
+
+(* Controller-level witness for the keyboard interrupt (the system model never produces exit
+   status 2): loadfile, the controller state after 6 rounds, event workerfinished(node 1,
+   exitstatus 2).  Both workers are told to shut down BEFORE worker_errordown runs; its
+   remove_node() re-queues the dead worker's tests but hands nothing out (no CRun / CRunAll /
+   CSteal among the outputs); the crash report and the replacement worker are as before. *)
 Example g2_kbd_same_iteration :
   let c := xc_cfg (MScope KFile) (Some 4%Z) 0%Z 0 g2_nocrash in
   let '(s, _, _) := sys_exec c (sys_init c) (rounds 6 xc_round) in
   let '(d', o, r) := d_loop_once (QFinished 1 SKKbd) (y_d s) in
   (d_shouldstop (y_d s), o, r, d_shouldstop d', d_shuttingdown d') =
   (false,
-   [OHook (HNodeDown 1 false); OHook (HNodeDown 1 true); OSend 0 (CRun [4]);
-    OHook (HCrashItem "b" 1); OHook (HCrashReport "b" 1); OHook (HSpawn 2 0); OSend 0 CShutdown],
+   [OHook (HNodeDown 1 false); OSend 0 CShutdown; OSend 1 CShutdown; OHook (HNodeDown 1 true);
+    OHook (HCrashItem "b" 1); OHook (HCrashReport "b" 1); OHook (HSpawn 2 0)],
    Ok tt, true, true).
 Proof. vm_compute. reflexivity. Qed.
+
+(* ... and the theorem applies to it *)
+Example g2_kbd_theorem_applies :
+  let c := xc_cfg (MScope KFile) (Some 4%Z) 0%Z 0 g2_nocrash in
+  let '(s, _, _) := sys_exec c (sys_init c) (rounds 6 xc_round) in
+  let '(d', o, r) := d_loop_once (QFinished 1 SKKbd) (y_d s) in
+  forall n, work_count n o = 0.
+Proof.
+  cbv zeta.
+  destruct (sys_exec (xc_cfg (MScope KFile) (Some 4%Z) 0%Z 0 g2_nocrash)
+              (sys_init (xc_cfg (MScope KFile) (Some 4%Z) 0%Z 0 g2_nocrash)) (rounds 6 xc_round)) as [[s o0] w0] eqn:E.
+  destruct (d_loop_once (QFinished 1 SKKbd) (y_d s)) as [[d' o] r] eqn:E2.
+  assert (Hn : not_errored s) by (vm_compute in E; inversion E; subst; intros e; discriminate).
+  destruct (sys_exec_lift_pre reach_inv (fun _ _ _ => True) (fun _ => I) (fun _ _ _ _ _ _ _ => I)
+              cmove_reach_inv _ _ _ _ _ _ E (reach_inv_init _)) as (_ & P).
+  destruct (P Hn) as (F & HI).
+  unfold d_loop_once in E2.
+  apply DSessionProofs.mbind_inv in E2. destruct E2 as [(d1 & o1 & [] & o2 & H1 & H2 & ->)|(e & H1 & ->)].
+  - apply nowork_app; [exact (kbd_no_dispatch _ _ _ _ _ F HI H1)|exact (nwr_loop_tail tt d1 _ _ _ H2)].
+  - exact (kbd_no_dispatch _ _ _ _ _ F HI H1).
+Qed.
 
 Check sys_no_dispatch_after_stop.
 Check sys_no_dispatch_after_stop_any.
@@ -702,4 +919,6 @@ Check sys_no_dispatch_after_stop_full.
 Check sys_shutting_down_all_registered.
 Check sys_stop_stopped.
 Check loop_once_no_dispatch.
+Check loop_once_stop_decision_no_dispatch.
+Check sys_stop_decision_step_no_dispatch.
 Check s_step_wlaw.
